@@ -144,7 +144,12 @@ func (ex *Exec) callBuiltin(st *State, f *Frame, b *ssa.Builtin, args []Value, i
 		o.Val = arr
 		return Ptr{Obj: o.id, Path: pathAppend("", 0)}
 	case "close":
-		return nil // channels are not modelled; closing one has no effect the executor can observe
+		if c, ok := args[0].(ChanV); ok && c.Obj != 0 {
+			if o, exists := st.heap[c.Obj]; exists && o.kind == ObjChan {
+				st.wobj(c.Obj).ChanClosed = true
+			}
+		}
+		return nil
 	}
 	panic(fmt.Sprintf("builtin %s on %T", b.Name(), args[0]))
 }
@@ -539,6 +544,67 @@ func (ex *Exec) rangeNext(st *State, it IterV, in *ssa.Next) Value {
 // ---- goroutines (sequential approximation: run to completion at the go statement is NOT sound in general;
 // paths reaching `go` are cut unless the harness enabled the scheduler)
 
+// doGo: the spawned goroutine is never scheduled (a legal schedule; harnesses that depend on its effect emulate it
+// explicitly and say so). The callee and arguments are still evaluated, as Go does at the go statement.
 func (ex *Exec) doGo(st *State, f *Frame, in *ssa.Go) {
-	panic(cutPath{"go statement"})
+	ex.resolveCall(st, f, &in.Call, in)
+	ex.stubs["go statement: spawned goroutine is not scheduled (sequential model)"] = true
+	f.pc++
+}
+
+// chanRecv: sequential channel model: a receive is ready when a value is queued or the channel is closed.
+func (ex *Exec) chanReady(st *State, c ChanV) (ready bool) {
+	if c.Obj == 0 {
+		return false // nil channel blocks forever
+	}
+	o := st.obj(c.Obj)
+	return len(o.ChanQueue) > 0 || o.ChanClosed
+}
+
+func (ex *Exec) chanTake(st *State, c ChanV, elem types.Type) (Value, bool) {
+	o := st.wobj(c.Obj)
+	if len(o.ChanQueue) > 0 {
+		v := o.ChanQueue[0]
+		o.ChanQueue = append([]Value(nil), o.ChanQueue[1:]...)
+		return v, true
+	}
+	return ex.zero(elem), false
+}
+
+func (ex *Exec) doSelect(st *State, f *Frame, in *ssa.Select) Value {
+	// result tuple: (index int, recvOk bool, r_0 T_0, ... r_n-1 T_n-1) for receive cases
+	tt := in.Type().(*types.Tuple)
+	res := make(TupleV, tt.Len())
+	for i := 2; i < tt.Len(); i++ {
+		res[i] = ex.zero(tt.At(i).Type())
+	}
+	res[1] = ex.tb.False()
+	recvSlot := 2
+	for i, s := range in.States {
+		c, _ := ex.get(f, s.Chan).(ChanV)
+		if s.Dir == types.RecvOnly {
+			if ex.chanReady(st, c) {
+				elem := s.Chan.Type().Underlying().(*types.Chan).Elem()
+				v, ok := ex.chanTake(st, c, elem)
+				res[0] = ex.c64(uint64(i))
+				res[1] = ex.tb.Bool(ok)
+				res[recvSlot] = v
+				return res
+			}
+			recvSlot++
+		} else {
+			// send: ready if the channel is open (queued)
+			if c.Obj != 0 && !st.obj(c.Obj).ChanClosed {
+				o := st.wobj(c.Obj)
+				o.ChanQueue = append(append([]Value(nil), o.ChanQueue...), ex.get(f, s.Send))
+				res[0] = ex.c64(uint64(i))
+				return res
+			}
+		}
+	}
+	if !in.Blocking {
+		res[0] = ex.tb.Const(^uint64(0), 64) // -1: default
+		return res
+	}
+	panic(endPath{"select blocks forever (no goroutine can make a case ready in the sequential model)"})
 }
